@@ -16,7 +16,14 @@ RECIPES[name] builds valid arguments from the receiver.  Per exercised pair:
                 network / tensor.
 (3) axis order  ``f(x)`` and ``f(perm(x))`` are label-equal, where perm permutes
                 the stored axes of every tensor (receiver and tensor-valued
-                arguments) and shuffles the insertion order of the tensors.
+                arguments) and shuffles the insertion order of the tensors
+                (pmode 'rebuild'), or changes the layout AFTER construction:
+                ``transpose_`` on the network's own tensors ('inplace'), plus
+                rename round trips through the network ('reindex'), or both
+                ('both') - the network's ind_map order and the tensors' stored
+                order then disagree.  Where a method takes the documented
+                in/out ``gauges`` dict the compared object is the gauged
+                network: tensors AND updated gauges contracted together.
 
 Label-equal = same class, same extra properties, same outer labels, same tag
 multiset (tag *set* for rewrites whose grouping is heuristic), same left_inds
@@ -179,12 +186,48 @@ def permute_tensor(t, rng, view=False):
     return new, p != sorted(p)
 
 
-def permute_obj(o, rng, view=False):
-    """(permuted copy, whether something non-trivial was permuted)."""
+PMODES = ["rebuild", "inplace", "reindex", "both"]
+
+
+def drift_layout(tn, rng, view=False, reindex=False):
+    """Change the stored layout of a network's OWN tensors after construction (history): ``t.transpose_`` on every tensor
+    (the network's ind_map keeps the order in which the labels were first seen), optionally followed by a rename round trip
+    of some labels through the network (moves their ind_map entries to the end).  Labelled content is unchanged."""
+    moved = False
+    for t in tn.tensor_map.values():
+        if t.ndim < 2:
+            continue
+        p = [int(i) for i in rng.permutation(t.ndim)]
+        if p == sorted(p):
+            p = p[1:] + p[:1]
+        li = t.left_inds
+        t.transpose_(*[t.inds[i] for i in p])
+        if not view:
+            t.modify(data=np.ascontiguousarray(t.data))
+        if li is not None:
+            t.modify(left_inds=li)
+        moved = True
+    if reindex and tn.ind_map:
+        labels = sorted(tn.ind_map)
+        k = int(rng.integers(1, len(labels) + 1))
+        for ix in [labels[int(i)] for i in rng.permutation(len(labels))[:k]]:
+            tn.reindex_({ix: "__c03tmp__"})
+            tn.reindex_({"__c03tmp__": ix})
+            moved = True
+    return moved
+
+
+def permute_obj(o, rng, view=False, mode="rebuild"):
+    """(permuted copy, whether something non-trivial was permuted).  mode: 'rebuild' = network rebuilt from pre-permuted
+    tensors in shuffled insertion order; 'inplace' = layout of the network's own tensors changed after construction;
+    'reindex' = inplace + rename round trips; 'both' = rebuild then reindex."""
     qtn = Q()
     if isinstance(o, qtn.Tensor):
         return permute_tensor(o, rng, view)
     if isinstance(o, qtn.TensorNetwork):
+        if mode in ("inplace", "reindex"):
+            new = o.copy()
+            return new, drift_layout(new, rng, view, reindex=(mode == "reindex"))
         ts, moved = [], False
         for t in o.tensor_map.values():
             nt_, m = permute_tensor(t, rng, view)
@@ -195,12 +238,14 @@ def permute_obj(o, rng, view=False):
         new.exponent = o.exponent
         if type(o) is not qtn.TensorNetwork:
             new.view_like_(o)
+        if mode == "both":
+            drift_layout(new, rng, view, reindex=True)
         return new, moved or order != sorted(order)
     if isinstance(o, (list, tuple)):
-        rs = [permute_obj(v, rng, view) for v in o]
+        rs = [permute_obj(v, rng, view, mode) for v in o]
         return type(o)(r[0] for r in rs), any(r[1] for r in rs)
     if isinstance(o, dict):
-        rs = {k: permute_obj(v, rng, view) for k, v in o.items()}
+        rs = {k: permute_obj(v, rng, view, mode) for k, v in o.items()}
         return {k: r[0] for k, r in rs.items()}, any(r[1] for r in rs.values())
     return o, False
 
@@ -212,8 +257,10 @@ def permute_obj(o, rng, view=False):
 MAX_DENSE = 2 ** 15
 
 
-def obj_value(o):
-    """(labels, dense value incl. exponent, magnitude floor) of a Tensor / network."""
+def obj_value(o, gauges=None):
+    """(labels, dense value incl. exponent, magnitude floor) of a Tensor / network.  With ``gauges`` (bond label -> vector)
+    the denoted object is the gauged network: every gauge vector whose label is present is contracted in as a diagonal
+    on that bond (an extra one-label operand of the einsum)."""
     qtn = Q()
     if isinstance(o, qtn.Tensor):
         ts = [(np.asarray(o.data).astype(np.complex128), tuple(o.inds))]
@@ -234,6 +281,8 @@ def obj_value(o):
         n *= sizes[l]
     if n > MAX_DENSE:
         return labels, None, 0.0
+    if gauges:
+        ts = ts + [(np.asarray(g).astype(np.complex128).ravel(), (ix,)) for ix, g in gauges.items() if ix in cnt]
     mag = 1.0
     for a, _ in ts:
         mag *= max(float(np.linalg.norm(a.ravel())), 1e-300)
@@ -272,6 +321,23 @@ def describe(o):
     except Exception:
         pass
     return {"k": "lit", "v": repr(o)}
+
+
+def describe_gauged(o, gauges):
+    """Description of (result, updated gauges dict) as ONE denoted object + the multiset of gauge values."""
+    qtn = Q()
+    if isinstance(o, (list, tuple)):
+        return {"k": "seq", "items": [describe_gauged(v, gauges) if isinstance(v, (qtn.Tensor, qtn.TensorNetwork)) else describe(v)
+                                      for v in o]}
+    d = describe(o)
+    if d["k"] in ("T", "TN"):
+        _, v, mag = obj_value(o, gauges)
+        d["v"], d["mag"] = v, mag
+        present = set(o.inds) if d["k"] == "T" else set(o.ind_map)
+        d["stale"] = sum(1 for ix in gauges if ix not in present)
+    # n.b. the gauge VALUES are not compared on their own: after a finite number of sweeps on a loopy network they depend on
+    # the (undocumented, harmless) sweep order - only the gauged network they denote together with the tensors is fixed
+    return {"k": "seq", "items": [d, {"k": "lit", "v": len(gauges)}]}
 
 
 def compare_denotation(a, b, tol, what, info, path):
@@ -354,6 +420,8 @@ def compare_desc(a, b, tol, what, info, loose=False, values=True, floor=0.0, pat
             raise Violation(what + ":tags", where=path, a=str(a["tags"])[:120], b=str(b["tags"])[:120], **info)
         if a["left"] != b["left"]:
             raise Violation(what + ":left-inds", where=path, a=str(a["left"]), b=str(b["left"]), **info)
+    if a.get("stale", 0) != b.get("stale", 0):
+        raise Violation(what + ":stale-gauges", where=path, a=a.get("stale"), b=b.get("stale"), **info)
     if values and a["v"] is not None and b["v"] is not None:
         fl = max(a["mag"], b["mag"])
         e = rel_err(a["v"], b["v"], floor=fl)
@@ -1051,12 +1119,12 @@ def run_pair(case):
         raise Violation("raises-one-spelling", which=which, exc=bad.kind, at=bad.where, msg=bad.msg, **info)
 
     same_object_rule(r1, r2, x2c, info)
-    if c1.inout:
-        r1 = (r1, [inout_value(c1.kwargs[k]) for k in c1.inout])
-        r2 = (r2, [inout_value(c2.kwargs[k]) for k in c2.inout])
-    d1 = describe(r1)
-    # the in-place spelling's result: where it returned the receiver describe the receiver (it is the same object)
-    d2 = describe(r2)
+    gauged = "gauges" in c1.inout and isinstance(c1.kwargs.get("gauges"), dict)
+    if gauged:
+        info["gauges"] = True
+        d1, d2 = describe_gauged(r1, c1.kwargs["gauges"]), describe_gauged(r2, c2.kwargs["gauges"])
+    else:
+        d1, d2 = describe(r1), describe(r2)
     err = compare_desc(d1, d2, tol, "spelling", info, cross=True)
 
     # ---- (1c) explicit inplace=False on methods whose documented default is in-place ----
@@ -1075,15 +1143,15 @@ def run_pair(case):
     x3, c3 = setup(case)
     prng = np.random.default_rng([int(case["pseed"]), 2])
     view = bool(case.get("view"))
-    x3p, moved = permute_obj(x3, prng, view)
-    c3.args, m1 = permute_obj(c3.args, prng, view)
-    c3.kwargs, m2 = permute_obj(c3.kwargs, prng, view)
+    pmode = case.get("pmode", "rebuild")
+    x3p, moved = permute_obj(x3, prng, view, pmode)
+    c3.args, m1 = permute_obj(c3.args, prng, view, pmode)
+    c3.kwargs, m2 = permute_obj(c3.kwargs, prng, view, pmode)
     r3 = invoke(x3p, name, c3, seed)
     if isinstance(r3, Raised):
-        raise Violation("axis-order:raises", exc=r3.kind, at=r3.where, msg=r3.msg, **info)
-    if c3.inout:
-        r3 = (r3, [inout_value(c3.kwargs[k]) for k in c3.inout])
-    err = max(err, compare_desc(d1, describe(r3), tol, "axis-order", info, loose=c1.loose, values=not c1.gauge))
+        raise Violation("axis-order:raises", exc=r3.kind, at=r3.where, msg=r3.msg, pmode=pmode, **info)
+    d3 = describe_gauged(r3, c3.kwargs["gauges"]) if gauged else describe(r3)
+    err = max(err, compare_desc(d1, d3, tol, "axis-order", dict(info, pmode=pmode), loose=c1.loose, values=not c1.gauge))
 
     n_t = 1 if is_tensor(x1) else keep.num_tensors
     nt = bool(moved) and (n_t >= 2 or (is_tensor(x1) and keep.ndim >= 2))
@@ -1179,9 +1247,16 @@ def r_tags_gauge(x, rng):
     return Call([pick(rng, site_keys(x))], tol=INV64)
 
 
-@recipe("compress_all", "compress_all_1d", "compress_all_simple")
+@recipe("compress_all", "compress_all_1d")
 def r_compress_all(x, rng):
     return Call(tol=INV64, **NOTRUNC)
+
+
+@recipe("compress_all_simple")
+def r_compress_all_simple(x, rng):
+    y = add_parallel_bond(x, rng) if rng.integers(0, 2) else x
+    kw, io = maybe_gauges(y, rng)
+    return Call(x=y, tol=INV64, inout=io, **NOTRUNC, **kw)
 
 
 @recipe("compress_all_tree")
@@ -1189,9 +1264,16 @@ def r_compress_tree(x, rng):
     return Call(tol=INV64, **NOTRUNC)
 
 
-@recipe("gauge_all", "gauge_all_canonize", "gauge_all_simple")
+@recipe("gauge_all")
 def r_gauge_all(x, rng):
     return Call(tol=INV64)
+
+
+@recipe("gauge_all_canonize", "gauge_all_simple")
+def r_gauge_all_gauges(x, rng):
+    y = add_parallel_bond(x, rng) if rng.integers(0, 2) else x
+    kw, io = maybe_gauges(y, rng)
+    return Call(x=y, tol=INV64, inout=io, **kw)
 
 
 @recipe("gauge_all_belief_propagation")
@@ -1230,12 +1312,14 @@ def r_contract_tags(x, rng):
 
 @recipe("contract_around")
 def r_contract_around(x, rng):
-    return Call([pick(rng, site_keys(x))], tol=INV64, loose=True, **NOTRUNC)
+    kw, io = maybe_gauges(x, rng, 0.4)
+    return Call([pick(rng, site_keys(x))], tol=INV64, loose=True, inout=io, **NOTRUNC, **kw)
 
 
 @recipe("contract_compressed")
 def r_contract_compressed(x, rng):
-    return Call("greedy", tol=INV64, loose=True, **NOTRUNC)
+    kw, io = maybe_gauges(x, rng, 0.4)
+    return Call("greedy", tol=INV64, loose=True, inout=io, **NOTRUNC, **kw)
 
 
 @recipe("drape_bond_between")
@@ -1279,9 +1363,35 @@ def add_parallel_bond(x, rng):
     return y
 
 
+def rand_gauges(x, rng, frac=0.8):
+    """Simple-update style bond gauges for x: label -> non-uniform positive vector (so kron(gx, gy) != kron(gy, gx)), on most
+    inner labels (labels without an entry are documented to count as the identity gauge)."""
+    g = {}
+    for ix in inner(x):
+        if rng.random() < frac:
+            g[ix] = rng.uniform(0.5, 1.5, size=x.ind_size(ix))
+    return g
+
+
+def maybe_gauges(x, rng, p=0.5):
+    """kwargs carrying a gauges dict (documented in/out argument) with probability p."""
+    if rng.random() < p:
+        return dict(gauges=rand_gauges(x, rng)), ("gauges",)
+    return {}, ()
+
+
 @recipe("fuse_multibonds")
 def r_fuse_multibonds(x, rng):
-    return Call(x=add_parallel_bond(x, rng))
+    y = add_parallel_bond(x, rng)
+    if rng.integers(0, 3) == 0:
+        # a triple bond, sizes differ from the double bond's
+        a, b = [k for k in site_keys(y) if "mb" in y[k].inds]
+        for k, f in ((a, 2.0), (b, 0.5)):
+            t = y[k]
+            d = np.asarray(t.data)
+            t.modify(data=np.ascontiguousarray(np.stack([d, f * d, -f * d], axis=0)), inds=("mc", *t.inds))
+    kw, io = maybe_gauges(y, rng, 0.7)
+    return Call(x=y, inout=io, **kw)
 
 
 @recipe("gate_inds")
@@ -1361,7 +1471,11 @@ def r_hyperinds(x, rng):
 @recipe("insert_compressor_between_regions")
 def r_insert_compressor(x, rng):
     a, b, _ = pick(rng, neighbours(x))
-    return Call([a], [b], tol=INV64, **NOTRUNC)
+    kw = {}
+    if rng.integers(0, 3) == 0:
+        # here the gauges only condition the environment of the projectors: a plain (read-only) argument
+        kw["gauges"] = rand_gauges(x, rng)
+    return Call([a], [b], tol=INV64, **NOTRUNC, **kw)
 
 
 @recipe("insert_operator")
@@ -1529,7 +1643,8 @@ def r_gate_simple(x, rng):
     else:
         where = [pick(rng, list(x.sites))]
     G = rand_gate(rng, 2 ** len(where), x.dtype, unitary=True)
-    return Call(G, where, gauges={}, inout=("gauges",), tol=INV64, **NOTRUNC)
+    g = rand_gauges(x, rng) if rng.integers(0, 2) else {}
+    return Call(G, where, gauges=g, inout=("gauges",), tol=INV64, **NOTRUNC)
 
 
 @recipe("gate_with_op_lazy", "gate_upper_with_op_lazy", "gate_lower_with_op_lazy", "gate_sandwich_with_op_lazy")
@@ -1948,7 +2063,8 @@ def s_network_ops(tier):
         "op": st.sampled_from(TN_OPS), "rhs": st.sampled_from(["network", "network", "tensor", "scalar"]),
         "share": st.booleans(), "seed": AR.seeds, "pseed": st.integers(0, 10 ** 6), "n": st.integers(0, 11),
         "geom": st.sampled_from(GEOMS), "dtype": st.sampled_from(["float64", "complex128"]),
-        "exp": st.sampled_from([0.0, 0.0, 1.0, -2.0]), "exp2": st.sampled_from([0.0, 0.5]), "view": st.booleans()})
+        "exp": st.sampled_from([0.0, 0.0, 1.0, -2.0]), "exp2": st.sampled_from([0.0, 0.5]), "view": st.booleans(),
+        "pmode": st.sampled_from(PMODES)})
 
 
 def run_network_ops(case):
@@ -2040,11 +2156,201 @@ def run_network_ops(case):
     # axis order
     prng = np.random.default_rng([int(case["pseed"]), 2])
     A2, B2 = network_operands(dict(case, rhs={"Tensor": "tensor", "TensorNetwork": "network"}.get(type(B).__name__, "scalar")))
-    A2, m1 = permute_obj(A2, prng, case["view"])
-    B2, m2 = permute_obj(B2, prng, case["view"])
+    A2, m1 = permute_obj(A2, prng, case["view"], case.get("pmode", "rebuild"))
+    B2, m2 = permute_obj(B2, prng, case["view"], case.get("pmode", "rebuild"))
     r2 = do(A2, B2)
     err = max(err, compare_desc(describe(r), describe(r2), EXACT64, "axis-order", info))
     return {"nt": bool(m1 or m2), "cls": ["op=" + op + ":" + type(B).__name__], "err": err}
+
+
+# ---------------------------------------------------------------------------
+# gauge-carrying methods that have no (f, f_) spelling: axis-order clause on (network, gauges) as ONE denoted object
+# ---------------------------------------------------------------------------
+
+GAUGE_CLASSES = ["TensorNetwork", "TensorNetworkGenVector"]
+# public methods that hand **opts to a private worker taking ``gauges`` (checked by reflection on the worker)
+GAUGE_FORWARDERS = {"compress_between": "_compress_between_tids", "canonize_between": "_canonize_between_tids",
+                    "contract_between": "_contract_between_tids"}
+
+
+@functools.lru_cache(None)
+def reflect_gauge_methods():
+    """{class name: names of public non-paired methods that accept ``gauges``} - by reflection on signatures."""
+    out = {}
+    for cname in GAUGE_CLASSES:
+        c = get_class(cname)
+        paired = set(reflect()[cname])
+        names = []
+        for n in dir(c):
+            if n.startswith("_") or n in paired or (n.endswith("_") and n[:-1] in paired):
+                continue
+            f = getattr(c, n)
+            if not callable(f):
+                continue
+            target = getattr(c, GAUGE_FORWARDERS[n], None) if n in GAUGE_FORWARDERS else f
+            try:
+                if target is not None and "gauges" in inspect.signature(target).parameters:
+                    names.append(n)
+            except (TypeError, ValueError):
+                pass
+        if cname != "TensorNetwork":
+            names = [n for n in names if n not in out["TensorNetwork"]]
+        out[cname] = sorted(names)
+    return out
+
+
+GAUGE_RECIPES = {}
+
+
+def grecipe(*names):
+    def deco(fn):
+        for n in names:
+            GAUGE_RECIPES[n] = fn
+        return fn
+    return deco
+
+
+# a gauge recipe: fn(x, rng) -> (receiver, run) with run(tn, G) -> list of results described AFTER the call; the method acts in
+# place on ``tn`` and on the dict ``G``.  Results are (object, gauged?) pairs.
+
+@grecipe("compress_between", "canonize_between", "contract_between")
+def g_between(name):
+    def build(x, rng):
+        y = add_parallel_bond(x, rng) if rng.integers(0, 2) else x
+        cands = neighbours(y)
+        mb = [c for c in cands if len(c[2]) > 1]
+        a, b, _ = pick(rng, mb) if (mb and rng.integers(0, 2)) else pick(rng, cands)
+        if rng.integers(0, 2):
+            a, b = b, a
+        kw = dict(NOTRUNC) if name == "compress_between" else {}
+
+        def run(tn, G):
+            getattr(tn, name)(a, b, gauges=G, **kw)
+            return [(tn, True)]
+        return y, run
+    return build
+
+
+@grecipe("gauge_simple_insert", "gauge_insert")
+def g_insert(name):
+    def build(x, rng):
+        y = add_parallel_bond(x, rng) if rng.integers(0, 2) else x
+
+        def run(tn, G):
+            rec = getattr(tn, name)(G, **({"return_gauges": "raw"} if name == "gauge_insert" else {}))
+            out = [(tn.copy(), False)]
+            if rec is not None:
+                tn.gauge_simple_remove(*rec)
+                out.append((tn, False))
+            return out
+        return y, run
+    return build
+
+
+@grecipe("gauge_simple_temp")
+def g_temp(name):
+    def build(x, rng):
+        kw = pick(rng, [{}, {"ungauge_outer": False}, {"ungauge_inner": False}])
+
+        def run(tn, G):
+            with tn.gauge_simple_temp(G, **kw):
+                inside = tn.copy()
+            return [(inside, False), (tn, False)]
+        return x, run
+    return build
+
+
+@grecipe("normalize_simple")
+def g_normalize_simple(name):
+    def build(x, rng):
+        def run(tn, G):
+            nf = tn.normalize_simple(G)
+            return [(nf, False), (tn, True)]
+        return x, run
+    return build
+
+
+@grecipe("local_expectation_simple", "local_expectation_cluster", "partial_trace_cluster", "get_cluster",
+         "compute_local_expectation_simple", "compute_local_expectation_cluster")
+def g_cluster(name):
+    def build(x, rng):
+        two = bool(rng.integers(0, 2))
+        where = list(pick(rng, nn_sites(x))) if two else [pick(rng, list(x.sites))]
+        d = 2 ** len(where)
+        m = rarr(rng, (d, d), x.dtype)
+        Gop = m + m.conj().T
+        dist = int(rng.integers(0, 3))
+
+        def run(tn, G):
+            if name.startswith("local_expectation"):
+                r = getattr(tn, name)(Gop, tuple(where) if two else where[0], gauges=G, max_distance=dist)
+            elif name.startswith("compute_local"):
+                r = getattr(tn, name)({tuple(where) if two else where[0]: Gop}, gauges=G, max_distance=dist)
+            elif name == "partial_trace_cluster":
+                r = tn.partial_trace_cluster(tuple(where), gauges=G, max_distance=dist, get="tensor")
+            else:
+                r = tn.get_cluster(tuple(where), gauges=G, max_distance=dist)
+            return [(r, False)]
+        return x, run
+    return build
+
+
+def s_gauge_methods(tier):
+    from .. import arrays as AR
+
+    pairs = [[c, n] for c, ns in reflect_gauge_methods().items() for n in ns if n in GAUGE_RECIPES]
+
+    def finish(d):
+        d = dict(d)
+        i = pairs.index(d["pair"])
+        d["pair"] = pairs[(i + d["seed"] + d["pseed"]) % len(pairs)]
+        return d
+
+    return st.fixed_dictionaries({
+        "seed": AR.seeds, "pseed": st.integers(0, 10 ** 6), "n": st.integers(3, 5), "geom": st.sampled_from(GEOMS),
+        "dtype": st.sampled_from(["float64", "complex128"]), "exp": st.sampled_from([0.0, 0.0, 1.0, -2.0]),
+        "view": st.booleans(), "pmode": st.sampled_from(PMODES), "frac": st.sampled_from([1.0, 0.8, 0.5]),
+        "pair": st.sampled_from(pairs)}).map(finish)
+
+
+def run_gauge_methods(case):
+    qtn = Q()
+    cname, name = case["pair"]
+    if name not in reflect_gauge_methods().get(cname, ()):
+        raise Reject("method no longer accepts gauges")
+    info = {"cls": cname, "name": name, "pmode": case["pmode"]}
+
+    def setup_g():
+        x = build_receiver(dict(case, pair=[cname if cname != "TensorNetwork" or case["seed"] % 2 else "TensorNetworkGenVector", "-"]))
+        rng = np.random.default_rng([int(case["seed"]), 5])
+        y, run = GAUGE_RECIPES[name](name)(x, rng)
+        G = rand_gauges(y, rng, case["frac"])
+        return y, run, G
+
+    def execute(tn, run, G):
+        core.reset_quimb_state(int(case["seed"]) % (2 ** 31))
+        with warnings.catch_warnings():
+            warnings.simplefilter("ignore")
+            res = run(tn, G)
+        return {"k": "seq", "items": [describe_gauged(o, G)["items"][0] if (g and isinstance(o, (qtn.Tensor, qtn.TensorNetwork)))
+                                      else describe(o) for o, g in res]}
+
+    # layout as built
+    x0, run0, G0 = setup_g()
+    f0 = fingerprint(x0)
+    d0 = execute(x0.copy(), run0, G0)
+    d = fp_diff(f0, fingerprint(x0))
+    if d:
+        raise Violation("copy-not-isolated", what=d, **info)
+    # drifted / rebuilt layout, same labelled content, same gauges
+    x1, run1, G1 = setup_g()
+    prng = np.random.default_rng([int(case["pseed"]), 2])
+    x1p, moved = permute_obj(x1, prng, bool(case["view"]), case["pmode"])
+    d1 = execute(x1p, run1, G1)
+    err = compare_desc(d0, d1, INV64, "axis-order", info, loose=True)
+    un = [f"{c}.{n}" for c, ns in reflect_gauge_methods().items() for n in ns if n not in GAUGE_RECIPES]
+    return {"nt": bool(moved) and bool(G0), "cls": [f"{SHORT[cname]}.{name}", "pmode=" + case["pmode"]] +
+            (["unexercised=" + ",".join(n.split(".")[1] for n in un)] if un else []), "err": err}
 
 
 # ---------------------------------------------------------------------------
@@ -2078,6 +2384,7 @@ def make_strategy(cname, letters):
             "seed": AR.seeds, "pseed": st.integers(0, 10 ** 6),
             "n": (st.sampled_from([3, 2, 4, 3, 1, 4]) if cname == "Tensor" else st.integers(lo, hi)), "geom": st.sampled_from(GEOMS), "dtype": st.sampled_from(["float64", "complex128"]),
             "exp": st.sampled_from([0.0, 0.0, 1.0, -2.0]), "view": st.booleans(),
+            "pmode": st.sampled_from(PMODES if cname != "Tensor" else ["rebuild"]),
             "pair": st.sampled_from(ex).map(lambda n: [cname, n])}).map(finish)
     return strat
 
@@ -2109,6 +2416,11 @@ for _c in CLASS_NAMES:
             examples=(20 * _n, 20 * _n * 13), shards=(1, 4), min_accept=0.5,
             rule=f"{_c} pairs with names starting {_label} ({_n} exercised): purity, copy isolation, spelling equivalence, "
                  "axis-order invariance; nt: >=2 tensors (rank>=2) and a non-identity permutation"))
+SUBCHECKS.append(SubCheck("gauges.methods", run_gauge_methods, s_gauge_methods, examples=(400, 6000), shards=(1, 4),
+                          rule="public non-paired methods that accept gauges= (reflected from signatures): the result (network + updated "
+                               "gauges as ONE denoted object, or the returned value) is the same for the layout as built and for a "
+                               "layout drifted after construction (transpose_ on own tensors, rename round trips) or rebuilt; "
+                               "nt: layout changed and >=1 gauge"))
 SUBCHECKS.append(SubCheck("ops.tensor", run_tensor_ops, s_tensor_ops, examples=(400, 8000), shards=(1, 4),
                           rule="Tensor operators + - * / ** @ & | *= /= unary-: operands untouched, numpy broadcasting-by-label "
                                "oracle, axis-order invariance; nt: a non-identity permutation of an operand"))
